@@ -358,6 +358,41 @@ func callOrder(fd *ast.FuncDecl, keep map[string]bool) []string {
 	return out
 }
 
+// stmtSkeleton lists the top-level statements of a small function in a normal form: logging calls, lock /
+// unlock and defer statements are left out; an `if` whose body ends in a return is written
+// "if <cond> return"; everything else is its source text on one line. Used for guards that decide
+// interleavings the call-granularity harness cannot reach (e.g. the once-only close of a channel).
+func stmtSkeleton(p *pkgInfo, fd *ast.FuncDecl) []string {
+	var out []string
+	if fd == nil {
+		return out
+	}
+	oneLine := func(n ast.Node) string { return strings.Join(strings.Fields(src(p, n)), " ") }
+	for _, st := range fd.Body.List {
+		switch x := st.(type) {
+		case *ast.DeferStmt:
+			continue
+		case *ast.ExprStmt:
+			t := oneLine(x)
+			if strings.HasPrefix(t, "logger.") || strings.HasSuffix(t, ".Lock()") || strings.HasSuffix(t, ".Unlock()") {
+				continue
+			}
+			out = append(out, t)
+		case *ast.IfStmt:
+			t := "if " + oneLine(x.Cond)
+			if n := len(x.Body.List); n > 0 {
+				if _, ok := x.Body.List[n-1].(*ast.ReturnStmt); ok {
+					t += " return"
+				}
+			}
+			out = append(out, t)
+		default:
+			out = append(out, oneLine(st))
+		}
+	}
+	return out
+}
+
 // lockShape reports whether the function's first statement locks the receiver's mutex (directly
 // embedded: recv.Lock(); or a field: recv.<field>.Lock()) and the second defers the unlock.
 func lockShape(fd *ast.FuncDecl) string {
@@ -863,6 +898,9 @@ func main() {
 		map[string]bool{"Save": true, "Write": true})
 	fx.CallOrders["prune"] = callOrder(hdrs.funcs["Repository.prune"],
 		map[string]bool{"Save": true, "Prune": true})
+	// C16: the once-only guard of the "block complete" channel (two downloaders finishing the same block
+	// at the same moment is an interleaving below call granularity)
+	fx.CallOrders["guard_markBlockRequestComplete"] = stmtSkeleton(root, root.funcs["BlockManager.markBlockRequestComplete"])
 	// C04: the order of the merkle / processor / store calls in BlockDownloader.handleBlock, and the
 	// `prune` argument of NewMerkleTree there (1 = true).
 	if hb := root.funcs["BlockDownloader.handleBlock"]; hb != nil {
@@ -1024,6 +1062,7 @@ func writeLean(path string, fx *facts) {
 	for _, k := range []string{"clean", "Save", "saveBranches", "prune", "handleBlock"} {
 		wrList("callOrder_"+k, fx.CallOrders[k])
 	}
+	wrList("guard_markBlockRequestComplete", fx.CallOrders["guard_markBlockRequestComplete"])
 	b.WriteString("\n/-- exported methods of the single-mutex components and their lock shape. -/\n")
 	b.WriteString("def lockShapes : List (String × String) := [\n")
 	keys = keys[:0]
